@@ -633,7 +633,13 @@ func (d *DirectTransmission) sendBatch(wholeBatch []*types.Event) {
 func (d *DirectTransmission) dispatchStaleBatches() {
 	defer d.stopWG.Done()
 
-	batchTicker := d.Clock.NewTicker(d.batchTimeout / 4)
+	// Traces.BatchTimeout is not range-checked by validation: anything under 4ns (or negative)
+	// gives a non-positive interval, on which NewTicker panics and takes the process down.
+	batchInterval := d.batchTimeout / 4
+	if batchInterval <= 0 {
+		batchInterval = 25 * time.Millisecond // a quarter of the documented default of 100ms
+	}
+	batchTicker := d.Clock.NewTicker(batchInterval)
 	defer batchTicker.Stop()
 
 	metricsTicker := d.Clock.NewTicker(100 * time.Millisecond) // Static 100ms interval for metrics
